@@ -45,17 +45,6 @@ func checkC11(c *Ctx) {
 	}
 	aBits := beBits(addr)  // 32
 	nBits := beBits(netID) // 24
-	typeIs := func(t int) absint.Node {
-		c := absint.True
-		for i := 0; i < 3; i++ {
-			b := nBits[21+i]
-			if (t>>uint(i))&1 == 0 {
-				b = d.M.Not(b)
-			}
-			c = d.M.And(c, b)
-		}
-		return c
-	}
 	// expected prefixed address per type
 	expected := func(t int) []absint.Node {
 		p, n := netIDTable[t][0], netIDTable[t][1]
@@ -73,70 +62,83 @@ func checkC11(c *Ctx) {
 		}
 		return out
 	}
+	// One run per NetID type with the three type bits fixed as constants (and, for the address-side functions, the
+	// type prefix of the address fixed): the result is then independent of whether the code dispatches on the type
+	// with a switch, a table or a helper.
+	fixNetType := func(t int) absint.Value {
+		v := absint.Copy(netID).(*absint.Array)
+		v.E[0].V = fixBits(in, v.E[0].V.(*absint.Bits), byteBits(t, 5, 7))
+		return v
+	}
+	fixAddrLead := func(t int) absint.Value { // t leading ones, then a zero
+		v := absint.Copy(addr).(*absint.Array)
+		fx := map[int]bool{}
+		for i := 0; i < t; i++ {
+			fx[7-i] = true
+		}
+		fx[7-t] = false
+		v.E[0].V = fixBits(in, v.E[0].V.(*absint.Bits), fx)
+		return v
+	}
 	// ---- SetAddrPrefix
-	cell := &absint.Cell{V: absint.Copy(addr)}
-	err := in.Try(func() { in.CallMethod(cell, AT, "SetAddrPrefix", netID) })
-	if err != nil {
-		r.Unknown("R2.setprefix", "DevAddr.SetAddrPrefix", "", "inside the interpreter's subset", err.Error())
-	} else {
+	for t := 0; t < 8; t++ {
+		nid := fixNetType(t)
+		nBits = beBits(nid)
+		cell := &absint.Cell{V: absint.Copy(addr)}
+		if err := in.Try(func() { in.CallMethod(cell, AT, "SetAddrPrefix", nid) }); err != nil {
+			r.Unknown("R2.setprefix", fmt.Sprintf("DevAddr.SetAddrPrefix/type%d", t), "", "inside the interpreter's subset", err.Error())
+			continue
+		}
 		got := beBits(cell.V)
-		for t := 0; t < 8; t++ {
-			exp := expected(t)
-			cond := typeIs(t)
-			for i := 31; i >= 0; i-- {
-				diff := d.M.And(cond, d.M.Xor(got[i], exp[i]))
-				role := "NwkAddr (unchanged)"
-				p, n := netIDTable[t][0], netIDTable[t][1]
-				switch {
-				case i > 31-p:
-					role = "type prefix"
-				case i > 31-p-n:
-					role = "NwkID"
-				}
-				r.Check(diff == absint.False, "R2.setprefix", fmt.Sprintf("DevAddr.SetAddrPrefix/type%d/bit%d", t, i), "", role+" = "+d.Describe(d.M.Simplify(exp[i], cond)),
-					d.Describe(d.M.Simplify(got[i], cond))+witnessIf(in, diff), true)
+		exp := expected(t)
+		for i := 31; i >= 0; i-- {
+			diff := d.M.Xor(got[i], exp[i])
+			role := "NwkAddr (unchanged)"
+			p, n := netIDTable[t][0], netIDTable[t][1]
+			switch {
+			case i > 31-p:
+				role = "type prefix"
+			case i > 31-p-n:
+				role = "NwkID"
 			}
+			r.Check(diff == absint.False, "R2.setprefix", fmt.Sprintf("DevAddr.SetAddrPrefix/type%d/bit%d", t, i), "", role+" = "+d.Describe(exp[i]),
+				d.Describe(got[i])+witnessIf(in, diff), true)
 		}
 	}
-	// ---- NetID.Type and NetID.ID (length depends on type: partition)
-	forParts(in, absint.True, 10, func(dom absint.Node, tag string) error {
+	nBits = beBits(netID)
+	// ---- NetID.Type and NetID.ID (length depends on type)
+	for t := 0; t < 8; t++ {
+		nid := fixNetType(t)
+		nB := beBits(nid)
 		var res []absint.Value
-		if e := in.Try(func() { in.SetLive(dom); res = in.CallMethod(&absint.Cell{V: netID}, NT, "ID") }); e != nil {
-			return e
+		if e := in.Try(func() { in.SetLive(absint.True); res = in.CallMethod(&absint.Cell{V: nid}, NT, "ID") }); e != nil {
+			r.Unknown("R2.netid", fmt.Sprintf("NetID.ID/type%d", t), "", "inside the interpreter's subset", e.Error())
+			continue
 		}
-		for t := 0; t < 8; t++ {
-			cond := d.M.And(dom, typeIs(t))
-			if cond == absint.False {
-				continue
-			}
-			w := netIDTable[t][2]
-			bs := sliceVals(res[0])
-			wantLen := (w + 7) / 8
-			if len(bs) != wantLen {
-				r.Bad("R2.netid", fmt.Sprintf("NetID.ID/type%d/len", t), "", fmt.Sprintf("%d bytes", wantLen), fmt.Sprintf("%d bytes", len(bs)))
-				continue
-			}
-			var got []absint.Node
-			for i := len(bs) - 1; i >= 0; i-- {
-				got = append(got, bs[i].(*absint.Bits).Bits()...)
-			}
-			ok := true
-			why := "low bits of the NetID, right-aligned"
-			for i := range got {
-				exp := absint.False
-				if i < w {
-					exp = nBits[i]
-				}
-				if d.M.And(cond, d.M.Xor(got[i], exp)) != absint.False {
-					ok, why = false, fmt.Sprintf("bit %d is %s", i, d.Describe(d.M.Simplify(got[i], cond)))
-				}
-			}
-			r.Check(ok, "R2.netid", fmt.Sprintf("NetID.ID/type%d", t), "", fmt.Sprintf("low %d bits of the NetID in %d bytes", w, wantLen), why, true)
+		w := netIDTable[t][2]
+		bs := sliceVals(res[0])
+		wantLen := (w + 7) / 8
+		if len(bs) != wantLen {
+			r.Bad("R2.netid", fmt.Sprintf("NetID.ID/type%d/len", t), "", fmt.Sprintf("%d bytes", wantLen), fmt.Sprintf("%d bytes", len(bs)))
+			continue
 		}
-		return nil
-	}, func(tag string, err error) {
-		r.Unknown("R2.netid", "NetID.ID"+tag, "", "inside the interpreter's subset", err.Error())
-	})
+		var got []absint.Node
+		for i := len(bs) - 1; i >= 0; i-- {
+			got = append(got, bs[i].(*absint.Bits).Bits()...)
+		}
+		ok := true
+		why := "low bits of the NetID, right-aligned"
+		for i := range got {
+			exp := absint.False
+			if i < w {
+				exp = nB[i]
+			}
+			if d.M.Xor(got[i], exp) != absint.False {
+				ok, why = false, fmt.Sprintf("bit %d is %s", i, d.Describe(got[i]))
+			}
+		}
+		r.Check(ok, "R2.netid", fmt.Sprintf("NetID.ID/type%d", t), "", fmt.Sprintf("low %d bits of the NetID in %d bytes", w, wantLen), why, true)
+	}
 	in.SetLive(absint.True)
 	if res, e := tryCall(in, &absint.Cell{V: netID}, NT, "Type"); e != nil {
 		r.Unknown("R2.netid", "NetID.Type", "", "inside subset", e.Error())
@@ -174,43 +176,37 @@ func checkC11(c *Ctx) {
 			r.Check(d.M.Implies(lead(t), eq), "R2.nwkid", fmt.Sprintf("DevAddr.NetIDType/%d-leading-ones", t), "", fmt.Sprint(want), "holds for all such addresses: "+fmt.Sprint(d.M.Implies(lead(t), eq)), true)
 		}
 	}
-	forParts(in, absint.True, 10, func(dom absint.Node, tag string) error {
+	for t := 0; t < 8; t++ {
+		ad := fixAddrLead(t)
+		aB := beBits(ad)
 		var res []absint.Value
-		if e := in.Try(func() { in.SetLive(dom); res = in.CallMethod(&absint.Cell{V: addr}, AT, "NwkID") }); e != nil {
-			return e
+		if e := in.Try(func() { in.SetLive(absint.True); res = in.CallMethod(&absint.Cell{V: ad}, AT, "NwkID") }); e != nil {
+			r.Unknown("R2.nwkid", fmt.Sprintf("DevAddr.NwkID/type%d", t), "", "inside the interpreter's subset", e.Error())
+			continue
 		}
-		for t := 0; t < 8; t++ {
-			cond := d.M.And(dom, lead(t))
-			if cond == absint.False {
-				continue
-			}
-			p, n := netIDTable[t][0], netIDTable[t][1]
-			bs := sliceVals(res[0])
-			wantLen := (n + 7) / 8
-			if len(bs) != wantLen {
-				r.Bad("R2.nwkid", fmt.Sprintf("DevAddr.NwkID/type%d/len", t), "", fmt.Sprintf("%d bytes", wantLen), fmt.Sprintf("%d bytes", len(bs)))
-				continue
-			}
-			var got []absint.Node
-			for i := len(bs) - 1; i >= 0; i-- {
-				got = append(got, bs[i].(*absint.Bits).Bits()...)
-			}
-			ok, why := true, "NwkID bits right-aligned"
-			for i := range got {
-				exp := absint.False
-				if i < n {
-					exp = aBits[32-p-n+i]
-				}
-				if d.M.And(cond, d.M.Xor(got[i], exp)) != absint.False {
-					ok, why = false, fmt.Sprintf("bit %d is %s", i, d.Describe(d.M.Simplify(got[i], cond)))
-				}
-			}
-			r.Check(ok, "R2.nwkid", fmt.Sprintf("DevAddr.NwkID/type%d", t), "", fmt.Sprintf("address bits %d..%d in %d bytes", 31-p, 32-p-n, wantLen), why, true)
+		p, n := netIDTable[t][0], netIDTable[t][1]
+		bs := sliceVals(res[0])
+		wantLen := (n + 7) / 8
+		if len(bs) != wantLen {
+			r.Bad("R2.nwkid", fmt.Sprintf("DevAddr.NwkID/type%d/len", t), "", fmt.Sprintf("%d bytes", wantLen), fmt.Sprintf("%d bytes", len(bs)))
+			continue
 		}
-		return nil
-	}, func(tag string, err error) {
-		r.Unknown("R2.nwkid", "DevAddr.NwkID"+tag, "", "inside the interpreter's subset", err.Error())
-	})
+		var got []absint.Node
+		for i := len(bs) - 1; i >= 0; i-- {
+			got = append(got, bs[i].(*absint.Bits).Bits()...)
+		}
+		ok, why := true, "NwkID bits right-aligned"
+		for i := range got {
+			exp := absint.False
+			if i < n {
+				exp = aB[32-p-n+i]
+			}
+			if d.M.Xor(got[i], exp) != absint.False {
+				ok, why = false, fmt.Sprintf("bit %d is %s", i, d.Describe(got[i]))
+			}
+		}
+		r.Check(ok, "R2.nwkid", fmt.Sprintf("DevAddr.NwkID/type%d", t), "", fmt.Sprintf("address bits %d..%d in %d bytes", 31-p, 32-p-n, wantLen), why, true)
+	}
 	// ---- IsNetID: one run per NetID type with the type bits fixed and the variables of the address's NwkID
 	// field interleaved with the NetID bits they are compared with (keeps the comparison BDDs linear)
 	for t := 0; t < 8; t++ {
